@@ -242,6 +242,19 @@ class World:
             obj.append(self.val(op[2]))
         elif k == "del":
             delattr(obj, op[2])
+        elif k == "restore":
+            if op[2] == "shallow":
+                twin = copy.copy(obj)
+            else:
+                from autofit import database as db
+                twin = db.Object.from_object(obj)()
+            first = len(self.objs)
+            self.register_graph(twin)
+            extra["new"] = [{"kind": "tuple" if isinstance(o, TuplePrior) else "coll" if isinstance(o, Collection) else "model",
+                             "attrs": self.abstract_attrs(o), "frozen": bool(getattr(o, "_is_frozen", False)),
+                             "cache_empty": len(getattr(o, "_frozen_cache", {}) or {}) == 0}
+                            for o in self.objs[first:]]
+            extra["flags"] = [bool(getattr(o, "_is_frozen", False)) for o in self.objs]
         elif k == "copy":
             how = op[2] if len(op) > 2 else "deep"
             if how == "pickle":
@@ -255,6 +268,7 @@ class World:
                              "attrs": self.abstract_attrs(o), "frozen": bool(getattr(o, "_is_frozen", False)),
                              "cache_empty": len(getattr(o, "_frozen_cache", {})) == 0}
                             for o in self.objs[first:]]
+            extra["flags"] = [bool(getattr(o, "_is_frozen", False)) for o in self.objs]
         elif k == "failwalk":
             obj.has_instance("not-a-type")
         elif k == "derive":
@@ -275,6 +289,10 @@ def run_case(case):
     outs = []
     for op in case["ops"]:
         rec = {}
+        if op[0] != "new" and not (0 <= op[1] < len(w.objs)) or any(
+                isinstance(x, list) and len(x) == 2 and x[0] == "r" and not (0 <= x[1] < len(w.objs)) for x in op):
+            outs.append({"exc": "Skipped", "msg": "refers to an object an earlier failed operation did not create"})
+            continue
         try:
             ans, extra = w.step(op)
             rec["ok"] = ans
